@@ -457,7 +457,6 @@ func (p *ServiceProcessor) ProcessClientStreamRequest(req *http.Request, path st
 	clientInputs chan []byte) (chan []byte, error) {
 
 	outChan := make(chan []byte, 100)
-	var closeOutOnce sync.Once
 	mh, ok := p.handlers[path]
 
 	if !ok {
@@ -471,10 +470,37 @@ func (p *ServiceProcessor) ProcessClientStreamRequest(req *http.Request, path st
 	// the request. Executing the request should fill the service's channel, as
 	// the service will use the same chanel for further requests.
 	stopAll := make(chan struct{})
+	var stopAllOnce sync.Once
 	closing := sync.Mutex{}
 
+	// outChan is closed exactly once, and only when no forwarding routine is
+	// left that could still send to it: forwarders counts the running ones,
+	// outClosed tells that no new one may start.
+	var outLock sync.Mutex
+	forwarders := 0
+	outClosed := false
+	// endStream tells the service routines to stop; the stream ends (outChan
+	// is closed) as soon as the last forwarding routine is gone.
+	endStream := func() {
+		stopAllOnce.Do(func() { close(stopAll) })
+		outLock.Lock()
+		if forwarders == 0 && !outClosed {
+			outClosed = true
+			close(outChan)
+		}
+		outLock.Unlock()
+	}
+
 	go func() {
+		ended := false
+		forwarded := make(map[uintptr]bool)
 		for buf := range clientInputs {
+			if ended {
+				// The stream is ending after an error: drain the channel so
+				// that its writer never blocks.
+				continue
+			}
+
 			// create a new instance of a handler
 			msg := reflect.New(mh.msgType).Interface()
 
@@ -482,8 +508,9 @@ func (p *ServiceProcessor) ProcessClientStreamRequest(req *http.Request, path st
 				network.DefaultConstructors(p.Context.server.Suite()))
 			if err != nil {
 				log.Error(xerrors.Errorf("failed to decode message: %v", err))
-				close(outChan)
-				return
+				ended = true
+				endStream()
+				continue
 			}
 
 			reply, stopServiceChan, err := callInterfaceFunc(mh.handler, msg, mh.streaming)
@@ -494,12 +521,29 @@ func (p *ServiceProcessor) ProcessClientStreamRequest(req *http.Request, path st
 					close(stopServiceChan)
 				}
 
-				close(outChan)
-				return
+				ended = true
+				endStream()
+				continue
 			}
 
+			// A service may hand out the same channel for several requests
+			// of a stream: it is forwarded by one routine only, otherwise
+			// its messages could overtake each other.
+			inChan := reflect.ValueOf(reply)
+			known := forwarded[inChan.Pointer()]
+			forwarded[inChan.Pointer()] = true
+
+			outLock.Lock()
+			refused := outClosed
+			if !refused && !known {
+				forwarders++
+			}
+			outLock.Unlock()
+
 			go func() {
-				<-stopAll
+				if !refused {
+					<-stopAll
+				}
 				closing.Lock()
 				defer closing.Unlock()
 				// since the user can use the same stopServiceChan or not, we
@@ -512,22 +556,33 @@ func (p *ServiceProcessor) ProcessClientStreamRequest(req *http.Request, path st
 				}
 			}()
 
+			if refused || known {
+				// Either the stream is already over (the request raced with
+				// its end): the service is told to stop right away and
+				// nothing is forwarded; or the channel is being forwarded
+				// already.
+				continue
+			}
+
 			// This goroutine is responsible for listening on the service channel,
 			// decoding the messages and then forwarding them to the streaming
 			// tunnel, which should then forward the message to the client. A new
 			// routine is created each time the client makes a request.
 			go func() {
-				inChan := reflect.ValueOf(reply)
 				cases := []reflect.SelectCase{
 					{Dir: reflect.SelectRecv, Chan: inChan},
 				}
 
 				// Since this goroutine is created each time the client sends a
-				// request, we then must ensure the outChan is closed only once.
+				// request, the outChan is closed by the last one that ends.
 				defer func() {
-					closeOutOnce.Do(func() {
+					outLock.Lock()
+					forwarders--
+					if forwarders == 0 && !outClosed {
+						outClosed = true
 						close(outChan)
-					})
+					}
+					outLock.Unlock()
 				}()
 
 				for {
@@ -544,7 +599,13 @@ func (p *ServiceProcessor) ProcessClientStreamRequest(req *http.Request, path st
 							log.Error(err)
 							return
 						}
-						outChan <- buf
+						select {
+						case outChan <- buf:
+						case <-stopAll:
+							// The client is gone or the stream failed:
+							// nobody reads outChan any more.
+							return
+						}
 					} else {
 						panic("no such channel index")
 					}
@@ -555,7 +616,7 @@ func (p *ServiceProcessor) ProcessClientStreamRequest(req *http.Request, path st
 				}
 			}()
 		}
-		close(stopAll)
+		stopAllOnce.Do(func() { close(stopAll) })
 	}()
 
 	return outChan, nil
